@@ -384,6 +384,29 @@ def agentGet (s : ESpace) (a : Aid) : Except Err Pos := if s.gone a then .error 
 def agentSet (s : ESpace) (a : Aid) (p : Pos) : Except Err ESpace :=
   if s.gone a then .error .attr else setPos s a p
 
+/-- `agent.position = value` with the state returned also when the call raises.  `writeFirst = false` is the code as it is
+    (validate / wrap, then the one write into the row); `writeFirst = true` is a setter that stores the value in the row
+    before it validates it — the order a rejected assignment must not have; kept so that "a rejected assignment changes
+    nothing" is a statement that can fail. -/
+def agentSetW (writeFirst : Bool) (s : ESpace) (a : Aid) (p : Pos) : ESpace × Except Err Unit :=
+  if s.gone a then (s, .error .attr)
+  else if writeFirst then
+    match s.a2i a with
+    | none => (s, .error .key)
+    | some i =>
+      if i < s.view then
+        let s1 : ESpace := { s with buf := upd s.buf i p }
+        if inBounds s.cfg.dims p then (s1, .ok ())
+        else if s.cfg.torus then ({ s with buf := upd s.buf i (torusCorrect s.cfg.dims p) }, .ok ())
+        else (s1, .error .oob)
+      else (s, .error .index)
+  else
+    if inBounds s.cfg.dims p || s.cfg.torus then
+      match setPos s a p with
+      | .error e => (s, .error e)
+      | .ok s' => (s', .ok ())
+    else (s, .error .oob)
+
 /-- `agent.remove()`: `Agent.remove` (deregistration from the model, idempotent), `space._remove_agent(self)`,
     then `self.space = None` -/
 def agentRemove (s : ESpace) (a : Aid) : Except Err ESpace :=
@@ -502,6 +525,13 @@ def agentSetV (s : ESpace) (a : Aid) (p : Pos) : Except Err ESpace :=
   else match bcast s.nd p with
     | .error e => .error e
     | .ok q => setPos s a q
+
+/-- … with the state returned also on an exception (what the driver runs) -/
+def agentSetVW (writeFirst : Bool) (s : ESpace) (a : Aid) (p : Pos) : ESpace × Except Err Unit :=
+  if s.gone a then (s, .error .attr)
+  else match bcast s.nd p with
+    | .error e => (s, .error e)
+    | .ok q => agentSetW writeFirst s a q
 
 /-- `agent.position += v` for a `v` of any length (the getter, then `+=` on the copy, then the setter) -/
 def agentIaddV (s : ESpace) (a : Aid) (v : Pos) : Except Err ESpace :=
